@@ -16,6 +16,14 @@ theorem UARTWord_unpack_state_independent (t u : Word) (buf : Bytes) (hk : sameK
   repeat' split
   all_goals simp_all
 
+/-- non-vacuity: a word object of the same stamp kind and byte order, holding other data and a parity flag, decodes
+    the encoding of a 3-byte word -/
+example :
+    let a : Word := Word.setPayload (Word.fresh (.ptp 5 999999999) 1) [1, 2, 3]
+    let t : Word := { Word.setPayload (Word.fresh (.ptp 1 1) 1) [7] with parity_error := true }
+    sameKind t.ipts a.ipts ∧ t.data_endianness = a.data_endianness ∧ ∃ b n, a.pack = .ok b ∧ (Word.unpack t b).2 = .ok n :=
+  ⟨by simp [sameKind, Word.setPayload, Word.fresh], rfl, _, _, rfl, rfl⟩
+
 /-- a successful packet unpack leaves an object with the same options exactly as it would leave a new one -/
 theorem UART_unpack_state_independent (t u : Packet) (buf : Bytes) (ho : t.ipts_source = u.ipts_source)
     (he : t.data_endianness = u.data_endianness) (h : (Packet.unpack t buf).2 = .ok ()) :
@@ -35,5 +43,14 @@ theorem UART_unpack_state_independent (t u : Packet) (buf : Bytes) (ho : t.ipts_
         simp only [hd]
         intro _
         cases t; cases u; simp_all
+
+/-- non-vacuity: a packet object with the same options that still holds a word decodes a two-word packet -/
+example :
+    let a : Packet := { uartwords := [Word.setPayload (Word.fresh (.ptp 5 999999999) 1) [1, 2, 3],
+                                      { Word.fresh (.ptp 6 0) 1 with parity_error := true, subchannel := 0x1FFF }],
+                        ipts_source := some 1, data_endianness := 1 }
+    let t : Packet := { uartwords := [Word.setPayload (Word.fresh (.ptp 1 1) 1) [7]], ipts_source := some 1, data_endianness := 1 }
+    ∃ b, a.pack = .ok b ∧ (Packet.unpack t b).2 = .ok () ∧ (Packet.unpack t b).1.uartwords.length = 2 :=
+  ⟨_, rfl, rfl, rfl⟩
 
 end Acra.Props.C13
